@@ -621,7 +621,7 @@ def reproduces_in_fresh_process(replay_obj):
 
 def run_histories(ctx, by_name):
     rng, v = ctx.rng, ctx.v
-    n_sessions = (400 if ctx.tier == "thorough" else 45) * ctx.scale
+    n_sessions = (1500 if ctx.tier == "thorough" else 120) * ctx.scale
     dist = dict(sessions=0, parsers=0, sheets=0, rows=0, outcomes={}, row_kinds={}, rows_hitting_registry=0, rows_with_data_model=0,
                 fresh_parser_comparisons=0, constructor_runs=0, constructor_outcomes={}, nested_index=0, variants={},
                 sheets_unreadable_in_isolation=0, sheets_without_rows=0, name_reused_with_other_headers=0,
@@ -674,3 +674,79 @@ def replay_history(r):
     for s in r["sessions"]:
         run_session(s, fail)
     return ok[0]
+
+
+# ======================================================================== sequences of direct calls
+def check_call(name, schema):
+    """model_from_headers_rec(name, headers_of S) and parse_header_annotations on every plain top-level column, in this
+    process as it is now; None or a description of the difference"""
+    from rpft.parsers.common import model_inference as mi
+    hs = K.py_headers_of(schema)
+    got = K.impl_infer(hs, name)
+    want = K.py_denote(schema)
+    if got[0] != "ok" or got[1] != want:
+        return f"model_from_headers_rec({name!r}, {hs!r}) gives {got!r}; the headers denote {want!r}"
+    for n, e in schema:
+        if e[0] != "leaf":
+            continue
+        h = K.py_render_leaf(e[1], n, e[2])
+        r = run_cli_mode(mi.parse_header_annotations, h)
+        try:
+            g = ("ok", (K.canon_type(r[1][0]), K.canon_default(r[1][1]))) if r[0] == "ok" else r
+        except K.OutOfUniverse as ex:
+            g = ("oou", str(ex))
+        if g != ("ok", K.py_denote_leaf(e[2])):
+            return f"parse_header_annotations({h!r}) gives {g!r}; the header denotes {K.py_denote_leaf(e[2])!r}"
+    return None
+
+
+def run_call_sequences(ctx, by_name):
+    """model_from_headers_rec / parse_header_annotations called again and again in one process with a few names and the
+    header rows of a family of related schemas: every call must give what its own headers denote (and what the pure Gallina
+    [infer] gives)"""
+    rng, v, m = ctx.rng, ctx.v, ctx.model
+    n_seq = (1000 if ctx.tier == "thorough" else 80) * ctx.scale
+    dist = dict(sequences=0, calls=0, variants={}, same_name_other_headers=0, same_columns_other_annotations=0)
+    from rpft.parsers.common.rowparser import get_field_name
+    done = []
+    reported = 0
+    for _ in range(n_seq):
+        fam = [(vn, sc) for vn, sc in gen_family(rng, by_name, rng.choice([3, 4, 5, 6])) if not K.has_dot_default(sc) or by_name]
+        names = rng.sample(["sheet", "data", "people", "a", "A b", "x.y"], rng.choice([1, 2, 3]))
+        calls = []
+        seen_n, seen_c = {}, {}
+        dist["sequences"] += 1
+        for _ in range(rng.choice([4, 6, 8, 12])):
+            vn, sc = rng.choice(fam)
+            name = rng.choice(names)
+            calls.append([name, sc])
+            dist["calls"] += 1
+            dist["variants"][vn] = dist["variants"].get(vn, 0) + 1
+            hs = tuple(K.py_headers_of(sc))
+            if seen_n.setdefault(name, hs) != hs:
+                dist["same_name_other_headers"] += 1
+            cols = tuple(get_field_name(h) for h in hs)
+            if seen_c.setdefault(cols, hs) != hs:
+                dist["same_columns_other_annotations"] += 1
+            v.coverage["evaluations"] += 1
+            bad = check_call(name, sc)
+            if m:
+                K.compare_infer(ctx, list(hs), K.dec_model_res(m.ask(f"({K.ENG} 1 {K.enc_headers(hs)})")), K.impl_infer(hs, name))
+            if bad:
+                reported += 1
+                rep = dict(fn="calls", calls=list(calls))
+                if reported <= 2 and not reproduces_in_fresh_process(rep):
+                    rep = dict(fn="calls", calls=[c for d in done for c in d] + list(calls))
+                v.failing_input("history-dependent-model", f"call {len(calls)} of a sequence in one process: {bad}", rep)
+                break
+        done.append(calls)
+    ctx.stats["call_sequences"] = dist
+
+
+def replay_calls(r):
+    for name, sc in r["calls"]:
+        bad = check_call(name, K.fix_schema(sc))
+        if bad:
+            print("  " + bad[:2000])
+            return False
+    return True
